@@ -511,6 +511,9 @@ func H_close_vs_op() {
 	// the call either took effect before Close or found the Watcher closed; it never
 	// works on the descriptor after Close has released it
 	verifAssert(e == nil || !errors.Is(e, unix.EBADF), "a call racing Close must not reach the kernel with the released descriptor (EBADF): it is ordered before Close or fails as closed")
+	if op == 1 {
+		verifAssert(e == nil || !errors.Is(e, ErrClosed), "Remove on a closed Watcher returns nil - also when Close won the race for the lock")
+	}
 	// everything still returns afterwards
 	verifAssert(w.Close() == nil, "a further Close returns")
 	verifAssert(w.Remove(p) == nil, "Remove after Close returns nil")
